@@ -325,12 +325,13 @@ def main(argv):
         'evaluations': len(cases),
         'distinct_nontrivial': len({vlib.case_hash(strip(c)) for c in cases if nontrivial(c)}),
         'rule': 'random API histories (20-80 calls; 1-3 processes incl. shared-PID contexts; CPU + 1-4 GPUs of 16-64 pages, one in four of 2-8 pages; '
-                'page sizes 2^12..2^16; unified devices; every 5th history hostile: double free, foreign/mid-buffer free, over-capacity, unmapped remap, bad device); '
+                'page sizes 2^12..2^16 and 2^21; request sizes around multiples of the page size and of 4 KiB (exact, +-1, half a page); unified devices; every 5th history hostile: double free, foreign/mid-buffer free, over-capacity, unmapped remap, bad device); '
                 'non-trivial = at least three allocations, a free, and a non-empty final page table',
         'traces_validated_against_impl': len(lst) + (len(bud) if bud and okb else 0),
         'corpus_cases': ncorpus,
         'call_histogram': dict(hist),
         'calls_total': sum(hist.values()),
+        'allocs_4k_multiple_not_page_multiple': sum(1 for c in cases for o in c['ops'] if o['op'] in ('alloc', 'allocu') and o.get('n', 0) % 4096 == 0 and o.get('n', 0) % (1 << c['lps']) != 0),
         'page_size_histogram': dict(collections.Counter(str(c['lps']) for c in cases)),
         'processes_histogram': dict(collections.Counter(str(len({o['ret'][0] for o in c['ops'] if o['op'] in ('init', 'initpid') and o['ret']})) for c in cases)),
         'hostile_cases': sum(1 for c in cases if c.get('hostile')),
